@@ -85,6 +85,7 @@ def run(runobj, spec, timeout=10.0, only=None, verbose=False):
     eng.cover_timeout = 1.0 if runobj.tier == "quick" else 5.0
     reps = [(c, eng.verify(c, timeout=timeout)) for c in cs]
     eng.discharge_many([r for _, r in reps], timeout, jobs=int(os.environ.get("PYVC_JOBS", "15")))
+    undecided_by_contract = {}
     try:
         for c, rep in reps:
             ck = (c.key, c.inst)
@@ -101,6 +102,7 @@ def run(runobj, spec, timeout=10.0, only=None, verbose=False):
             if not rep.obligations and not rep.trivial:
                 res["out_of_subset"].append({"function": c.name, "reason": "engine fault: zero obligations"})
             entry_dead = False
+            outcome_covers = [o for o in rep.covers if "entry" not in o.detail]
             for o in rep.covers:
                 if o.result.status == "sat":
                     res["covers_sat"] += 1
@@ -108,8 +110,10 @@ def run(runobj, spec, timeout=10.0, only=None, verbose=False):
                     res["dead_paths"] += 1
                     if "entry" in o.detail:
                         entry_dead = True
+            if outcome_covers and all(o.result.status == "unsat" for o in outcome_covers):
+                entry_dead = True     # every path to an outcome is infeasible: the obligations hold vacuously
             if entry_dead:
-                res["out_of_subset"].append({"function": c.name, "reason": "vacuous: requires clause unsatisfiable"})
+                res["out_of_subset"].append({"function": c.name, "reason": "vacuous: requires clause unsatisfiable or every outcome path infeasible (inconsistent assumptions)"})
                 res["functions"].append(frec)
                 continue
             for t in rep.trusted:
@@ -131,11 +135,23 @@ def run(runobj, spec, timeout=10.0, only=None, verbose=False):
                 else:
                     res["undecided"].append({"obligation": o.name, "status": r.status, "what": o.detail[:160],
                                              "attempts": r.attempts})
+                    undecided_by_contract.setdefault(id(c), (c, []))[1].append(o)
             if verbose:
                 print(f"  {c.name}: {frec['discharged']}/{frec['obligations']} paths={rep.paths} {rep.wall:.1f}s")
             res["functions"].append(frec)
     finally:
         pass
+    # an undecided obligation is never a verdict by itself; but the same contract is run natively over its pool:
+    # a native violation of the contract is a real counterexample and is reported with its replay
+    for c, obls in undecided_by_contract.values():
+        wit, tried = witness_search(c, None, seed=runobj.seed, budget=15.0)
+        if wit:
+            o = obls[0]
+            payload = {"obligation": o.name, "what": f"{o.kind} obligation undecided by the solvers ({o.detail[:120]}); the contract is violated natively: {wit['detail'][:200]}",
+                       "contract": c.name, "function": c.key, "witness": wit, "witness_pool_tried": tried,
+                       "solver_output": str(o.result.attempts)}
+            res["failed"].append({"obligation": o.name, "witness": True, "via": "undecided + native witness"})
+            runobj.classify(base_key(o.name), payload)
     # inductive lemmas used as axioms by these contracts: their induction steps are obligations of this run
     from checker import lemmas as L
     need = []
